@@ -404,7 +404,7 @@ int SimulateTms9900::run(int max_cycles, int step)
 
 int SimulateTms9900::get_register(const char *token)
 {
-  if (token[0] == 'r' || token[0] == 'R')
+  if ((token[0] == 'r' || token[0] == 'R') && token[1] != 0)
   {
     if (token[2] == 0 && (token[1] >= '0' && token[1] <= '9'))
     {
